@@ -758,6 +758,8 @@ def merge_rules(run, r_bases, r_ids, ast):
                 run.instance(r_ids, "%s: every new id of a class is appended to its id list" % short(f), (f["file"], ti[0]["l"]), ok=not bad)
                 for t in bad:
                     run.violation(r_ids, "compiler::augment_classes|id-push-guard", "appending an id to a class's id list depends on `%s`: a second id of an already known class is dropped" % t, (f["file"], ti[0]["l"]))
+    if r_bases:
+        dedup_rules(run, r_bases, ast)
 
 
 # ---------------------------------------------------------------------------
@@ -2889,3 +2891,138 @@ def abstract_flag_rules(run, rule, ast):
                     run.violation(rule, "class_declaration_aux|is_abstract", "a class is registered as abstract from `%s`, not from std::is_abstract_v<Class>: classes that can have objects are left out of the concrete-only figures" % astq.text(r)[:80], (f["file"], n["l"]))
     if not n_seen:
         run.broken.append("class_declaration_aux: assignment of is_abstract not found")
+
+
+def facet_rules(run, rule, floor=6):
+    """E3: has_facet is asked of the final policy class. Facets mixed in by inheritance next to a rebound stock policy (the
+    idiom of the library's own benchmarks: `struct P : default_static::rebind<P>, policy::basic_indirect_vptr<P> {}`) are seen,
+    removed ones are not. Every `if constexpr (has_facet<...>)` of the library selects its code by this predicate, so this is
+    a necessary condition of whatever the selected code establishes (error reporting, indirect v-table pointers, hashing)."""
+    from . import e3
+    fu = e3.Unit("facets_" + rule.replace("-", "_").lower(), """
+#include <yorel/yomm2/core.hpp>
+using namespace yorel::yomm2;
+namespace yvf {
+struct inh_throw : policy::release::rebind<inh_throw>::remove<policy::error_handler>, policy::throw_error {};
+struct inh_vec : policy::release::rebind<inh_vec>::remove<policy::error_handler>, policy::vectored_error<inh_vec> {};
+struct inh_checks : policy::release::rebind<inh_checks>, policy::runtime_checks {};
+struct inh_ind : policy::release::rebind<inh_ind>, policy::basic_indirect_vptr<inh_ind> {};
+struct inh_hash : policy::release::rebind<inh_hash>::remove<policy::type_hash>, policy::fast_perfect_hash<inh_hash> {};
+struct none : policy::release::rebind<none>::remove<policy::error_handler> {};
+struct nohash : policy::release::rebind<nohash>::remove<policy::type_hash> {};
+}
+using namespace yvf;
+""")
+    fu.add("has_facet|inherited|throw_error", "a policy that inherits policy::throw_error has the error_handler facet", "static_assert(inh_throw::has_facet<policy::error_handler>);")
+    fu.add("has_facet|inherited|vectored_error", "a policy that inherits vectored_error<P> has the error_handler facet", "static_assert(inh_vec::has_facet<policy::error_handler>);")
+    fu.add("has_facet|inherited|runtime_checks", "a policy that inherits runtime_checks has that facet", "static_assert(inh_checks::has_facet<policy::runtime_checks>);")
+    fu.add("has_facet|inherited|indirect_vptr", "a policy that inherits basic_indirect_vptr<P> has the indirect_vptr facet (library-wide and member predicate agree)", "static_assert(inh_ind::has_facet<policy::indirect_vptr> && policy::has_facet<inh_ind, policy::indirect_vptr>);")
+    fu.add("has_facet|inherited|type_hash", "a policy that inherits fast_perfect_hash<P> has the type_hash facet", "static_assert(inh_hash::has_facet<policy::type_hash> && policy::has_facet<inh_hash, policy::type_hash>);")
+    fu.add("has_facet|removed", "a policy whose error handler was removed (and none added) has no error_handler facet", "static_assert(!none::has_facet<policy::error_handler>);")
+    fu.add("has_facet|removed|type_hash", "a policy whose type_hash was removed has no type_hash facet, and keeps its v-table placement", "static_assert(!nohash::has_facet<policy::type_hash> && !policy::has_facet<nohash, policy::type_hash> && nohash::has_facet<policy::external_vptr>);")
+    if rule not in run.rules:
+        run.rule(rule, "has_facet is asked of the final policy class: facets added by inheritance are seen, removed ones are not", floor=floor)
+    for ob, ok, msg in e3.run_unit(run, rule, fu):
+        if not ok:
+            run.violation(rule, ob["key"], "%s: %s" % (ob["desc"], msg), "include/yorel/yomm2/policies/core.hpp")
+
+
+def dedup_rules(run, rule, ast):
+    """augment_classes, de-duplication step: per class, the raw list of recorded bases (duplicates from repeated and redundant
+    registrations) is filtered into a duplicate-free one, and the class's weight - what orders the bases before direct bases are
+    extracted - is the size of the duplicate-free list. Typestate over the two containers (the member list M, a local L) through
+    the straight-line statements of the per-class loop: raw / dedup / empty; swap exchanges states, assignment copies them.
+    The weight must be read from a container in state `dedup`, and M must end in state `dedup`."""
+    for f in by_name(ast, "augment_classes"):
+        done = False
+        for lp in astq.walk(f["body"]):
+            if lp.get("k") not in ("CXXForRangeStmt", "ForStmt") or lp.get("body") is None or lp["body"].get("k") != "CompoundStmt":
+                continue
+            stmts = lp["body"].get("c") or []
+            wsets = [st for st in stmts if (astq.strip(st) or {}).get("k") == "BinaryOperator" and astq.strip(st).get("op") == "=" and
+                     (astq.strip(astq.strip(st)["c"][0]) or {}).get("k") == "MemberExpr" and astq.strip(astq.strip(st)["c"][0]).get("member") == "weight"]
+            if not wsets:
+                continue
+            done = True
+
+            def cont(e):
+                e = astq.strip(e)
+                if e is None:
+                    return None
+                if e.get("k") == "DeclRefExpr" and e["ref"].get("storage") == "local" and "vector<" in (e.get("t") or e["ref"].get("type") or "vector<"):
+                    return ("L", e["ref"]["did"])
+                if e.get("k") == "MemberExpr" and e.get("member") == "transitive_bases":
+                    return ("M", 0)
+                return None
+            state = {("M", 0): "raw"}
+            weight_from = None
+            unknown = []
+            for st in stmts:
+                e = astq.strip(st) if st.get("k") != "DeclStmt" else st
+                k = e.get("k")
+                if k == "DeclStmt":
+                    for d in e["decls"]:
+                        if "vector<" in (d.get("type") or ""):
+                            ini = astq.strip(d.get("init")) if d.get("init") is not None else None
+                            src = None
+                            if ini is not None:
+                                for x in astq.walk(ini):
+                                    if cont(x) is not None:
+                                        src = cont(x)
+                            state[("L", d["did"])] = state.get(src, "empty") if src else "empty"
+                    continue
+                if k in ("CXXForRangeStmt", "ForStmt", "WhileStmt"):
+                    pushes = [n for n in astq.walk(e) if n.get("k") == "CXXMemberCallExpr" and (n.get("callee") or "").endswith("::push_back") and cont(astq.strip(n["c"][0])["c"][0] if astq.strip(n["c"][0]).get("k") == "MemberExpr" else None) is not None]
+                    for n in pushes:
+                        tgt = cont(astq.strip(n["c"][0])["c"][0])
+                        cds = _cdep_conds(f, n) or []
+                        guarded = any(cn is not None and cls not in ("loop", "trace") and any(x.get("k") == "MemberExpr" and x.get("member") == "mark" for x in astq.walk(cn)) for cls, cn, blk in cds)
+                        state[tgt] = "dedup" if guarded and state.get(tgt) in ("empty", "dedup") else "raw"
+                    if not pushes and any(cont(x) is not None for x in astq.walk(e["body"])):
+                        unknown.append(e)
+                    continue
+                if k == "CXXMemberCallExpr" and (e.get("callee") or "").endswith("::swap"):
+                    a = cont(astq.strip(e["c"][0])["c"][0]) if astq.strip(e["c"][0]).get("k") == "MemberExpr" else None
+                    b = cont(e["c"][1]) if len(e["c"]) > 1 else None
+                    if a is None or b is None:
+                        unknown.append(e)
+                    else:
+                        state[a], state[b] = state.get(b), state.get(a)
+                    continue
+                if k == "CallExpr" and re.match(r"^std::swap<", e.get("callee") or "") and len(e["c"]) == 3:
+                    a, b = cont(e["c"][1]), cont(e["c"][2])
+                    if a is None or b is None:
+                        unknown.append(e)
+                    else:
+                        state[a], state[b] = state.get(b), state.get(a)
+                    continue
+                if k == "BinaryOperator" and e.get("op") == "=" and (astq.strip(e["c"][0]) or {}).get("k") == "MemberExpr" and astq.strip(e["c"][0]).get("member") == "weight":
+                    r = astq.strip(e["c"][1])
+                    c = None
+                    if r is not None and r.get("k") == "CXXMemberCallExpr" and (r.get("callee") or "").endswith("::size"):
+                        c = cont(astq.strip(r["c"][0])["c"][0])
+                    weight_from = (c, state.get(c) if c else None, e)
+                    continue
+                if k == "CXXOperatorCallExpr" and e.get("oop") == "=" and cont(e["c"][1]) is not None:
+                    srcs = [cont(x) for x in astq.walk(e["c"][2]) if cont(x) is not None]
+                    if len(srcs) == 1:
+                        state[cont(e["c"][1])] = state.get(srcs[0])
+                    else:
+                        unknown.append(e)
+                    continue
+                if any(cont(x) is not None for x in astq.walk(e)):
+                    unknown.append(e)
+            if unknown:
+                run.broken.append("%s: the de-duplication step touches the base lists in a way the rule does not model (`%s`)" % (short(f), astq.text(unknown[0])[:60]))
+                continue
+            okw = weight_from is not None and weight_from[1] == "dedup"
+            run.instance(rule, "%s: a class's weight is the size of its duplicate-free list of bases" % short(f), (f["file"], wsets[0]["l"]), ok=okw)
+            if not okw:
+                run.violation(rule, "compiler::augment_classes|weight-source", "the weight is read from %s: it then counts every repeated record of a base, a much-registered class can sort before its own descendant and become a spurious direct base" % (
+                    "a list in state `%s`" % weight_from[1] if weight_from and weight_from[0] else "something other than the size of a base list"), (f["file"], wsets[0]["l"]))
+            okm = state.get(("M", 0)) == "dedup"
+            run.instance(rule, "%s: the class's list of bases is duplicate-free after the step" % short(f), (f["file"], lp["l"]), ok=okm)
+            if not okm:
+                run.violation(rule, "compiler::augment_classes|dedup-installed", "after the de-duplication step the class's base list is in state `%s`" % state.get(("M", 0)), (f["file"], lp["l"]))
+        if not done:
+            run.broken.append("%s: the per-class step that sets the weight was not found" % short(f))
